@@ -35,7 +35,16 @@ def emitted_requests(ctx: Ctx) -> list[dict[str, Any]]:
     cleanup_tlc(r)
     if not vals:
         raise MachineryError("no requests emitted: " + r.output[-500:])
-    return vals
+    rw = run_tlc("MC_PipelineEmit", "MC_PipelineEmitWide.cfg", timeout=1800, workers=1, coverage=False)
+    wide = parse_tlc_values(rw.output.splitlines())
+    ctx.add_tlc(rw, "J2O_Pipeline (wide interface: arity 12, three leaves)")
+    if rw.violated:
+        raise MachineryError(f"J2O_Pipeline wide configuration: {rw.violated} violated")
+    cleanup_tlc(rw)
+    for v in wide:
+        v["wide"] = True
+    ctx.extra["wide_requests_emitted"] = len(wide)
+    return vals + wide
 
 
 def select(vals, rng, n_model, n_raised, want=None):
@@ -51,6 +60,7 @@ def select(vals, rng, n_model, n_raised, want=None):
         if any(d not in seen for d in dims):
             picked.append(v)
             seen.update(dims)
+    picked += [v for v in model + raised if v.get("wide") and v not in picked]
     rest_m = [v for v in model if v not in picked][:n_model]
     rest_r = [v for v in raised if v not in picked][:n_raised]
     out = picked + rest_m + rest_r
